@@ -425,6 +425,14 @@ func c19One(c *fw.Ctx, cs c19Case) {
 				return
 			}
 		}
+		// such a request must not count as under way for good: the next renewal waits for the requests under way
+		rdone := make(chan struct{})
+		go func() { e.sc.Renew(bg); close(rdone) }()
+		if !waitForBeats(rdone, 4*limit+3000) {
+			cs.Detail = fmt.Sprintf("a renewal after requests that failed before they were sent has not returned after %d heartbeats\n%s", 4*limit+3000, blockedDump())
+			c.Violation("c19:channel-wedged-after:"+cs.Scenario, cs.Detail, cs)
+			return
+		}
 	}
 	_ = forced
 	// quiescence: every pending slot released, and the channel still delivers later responses
@@ -497,7 +505,7 @@ func init() {
 	fw.Register("C19", fw.Spec{
 		Plan: func(tier string) fw.Plan {
 			p := fw.Plan{Batches: 8, TimeoutS: 900, MinNontrivial: 40, Level: "exploration",
-				Rule:        "a real client-kind channel (request timeout 100/200/300 ms) against the scripted server, scenarios: answers withheld for good; answers released within +-20 ms of the caller's timer (timeout + 250 ms leniency); forced races through the hook points: the caller is parked at sc.timeout.fired / sc.ctx.done (timer fired or context ended, handler not yet taken back), only then the server answers, optionally the dispatcher is parked at sc.disp.afterPop until the caller has returned; the same for the OpenSecureChannel answer of a renewal (caller returns and open() runs its deferred unlock before the dispatcher goes on); requests whose context ended before anything was written; a request of 2-6 MB (dozens of chunks) to a peer that is alive but has stopped reading (small socket buffers), which must fail within the bound and release its slot; oracle: un-forced calls return within 3 x (timeout + 250 ms) counted in heartbeats, no call stays blocked (heartbeat clock, goroutine dump attached), at quiescence no handler slot is registered (verif accessor), and 10 fresh requests which the server answers complete; distinct = (scenario, timeout, seed)",
+				Rule:        "a real client-kind channel (request timeout 100/200/300 ms) against the scripted server, scenarios: answers withheld for good; answers released within +-20 ms of the caller's timer (timeout + 250 ms leniency); forced races through the hook points: the caller is parked at sc.timeout.fired / sc.ctx.done (timer fired or context ended, handler not yet taken back), only then the server answers, optionally the dispatcher is parked at sc.disp.afterPop until the caller has returned; the same for the OpenSecureChannel answer of a renewal (caller returns and open() runs its deferred unlock before the dispatcher goes on); requests whose context ended before anything was written, followed by a renewal (which waits for the requests under way); a request of 2-6 MB (dozens of chunks) to a peer that is alive but has stopped reading (small socket buffers), which must fail within the bound and release its slot; oracle: un-forced calls return within 3 x (timeout + 250 ms) counted in heartbeats, no call stays blocked (heartbeat clock, goroutine dump attached), at quiescence no handler slot is registered (verif accessor), and 10 fresh requests which the server answers complete; distinct = (scenario, timeout, seed)",
 				Assumptions: []string{"heartbeats <= elapsed milliseconds, so load cannot make a call look late; the hook parks a goroutine only where the code is between two critical sections"}}
 			if tier == "thorough" {
 				p.Batches, p.TimeoutS, p.MinNontrivial = 16, 3400, 3000
